@@ -8,9 +8,11 @@ R12.2 (value-flow normal form of the chunk-dtype plan + CFG) per data set on the
 R12.3 (shared) IDENT <= 255 / strict ASCII (C06 R06.3), UVARI range (C06 R06.2), no masking before pack (C06 R06.1),
       empty list either rejected or written with count 0 (C04 R04.2), big-endian on disk for every source order (C03 R03.2),
       fixed-width label / FILE-HEADER text fields are refused when too long, never written longer (C01 R01.1, C09 R09.4).
-R12.4 (error discipline) every `except` handler in the package either raises or is one of the reviewed handlers, keyed
-      by function, exception types and the statements it protects; a new swallowing handler, or a reviewed one that now
-      covers more statements, is a violation.
+R12.4 (error discipline) every `except` handler in the package either raises on every path, or protects a pure probe
+      (at most two statements that only bind locals / return and call effect-free things: nothing half-made can exist
+      when the exception arrives), or is one of the reviewed handlers, keyed by owner, exception type and the number of
+      statements it protects; any other swallowing handler, or a reviewed one that now covers more statements, is a
+      violation.
 R12.5 no warning / log call replaces one of the raises above.
 """
 
